@@ -17,7 +17,7 @@ import (
 // Engine E4: a census of constructs that panic when their guard is false.
 
 func init() {
-	register("C11", "Decides structural necessary conditions of 'never a runtime panic' by a census of panic-capable constructs in the module, each an obligation: (P1) explicit panic statements (accepted only in a reasoned table) and calls of panicking third-party APIs (regexp.MustCompile on non-constant patterns, unprotected gopher-lua Call, template.Must …); (P2) unchecked type assertions — on Operation.Preferences (the asserted type must be the dynamic type at every construction site of that operation type: lexer rule table + literals in code), on list elements (every value put into a container/list in the module is a *CandidateNode, the group_by bucket excepted), and handlers dereference expressionNode.LHS / RHS only when NumArgs provides them; (P3) results of list Front()/Back() and the Alias pointer are dereferenced only under a nil / length test (or a tabled invariant); (P4) index and slice expressions with constant or len-k bounds are proven in range by dominating comparisons (interval reasoning over len) or listed in a residual table with the invariant that makes them safe; (P5) integer division / modulo by a non-constant divisor is guarded by a non-zero test, strings.Repeat / make lengths are guarded non-negative; (P6) a recovered panic becomes the function's returned error (reported as a note where no failing input could be exhibited). Does NOT decide: general nil dereferences, panics inside third-party parsers, stack exhaustion on deep documents, and TERMINATION — the 'never hangs' half of the property is out of reach of static analysis here; variable-index expressions are only counted (proved / not proved), not armed.", runC11)
+	register("C11", "Decides structural necessary conditions of 'never a runtime panic' by a census of panic-capable constructs in the module, each an obligation: (P1) explicit panic statements (accepted only in a reasoned table) and calls of panicking third-party APIs (regexp.MustCompile on non-constant patterns, unprotected gopher-lua Call, template.Must …); (P2) unchecked type assertions — on Operation.Preferences (the asserted type must be the dynamic type at every construction site of that operation type: lexer rule table + literals in code), on list elements (every value put into a container/list in the module is a *CandidateNode, the group_by bucket excepted), and handlers dereference expressionNode.LHS / RHS only when NumArgs provides them; (P3) results of list Front()/Back() and the Alias pointer are dereferenced only under a nil / length test (or a tabled invariant); (P4) index and slice expressions with constant or len-k bounds are proven in range by dominating comparisons (interval reasoning over len) or listed in a residual table with the invariant that makes them safe; (P5) integer division / modulo by a non-constant divisor is guarded by a non-zero test, strings.Repeat / make lengths are guarded non-negative; (P6) a recovered panic becomes the function's returned error (reported as a note where no failing input could be exhibited). (P11) a recursion that descends into children re-enters itself along an alias edge only behind an ancestor test. Does NOT decide: general nil dereferences, panics inside third-party parsers, stack exhaustion on deep documents, and TERMINATION — the 'never hangs' half of the property is out of reach of static analysis here; variable-index expressions are only counted (proved / not proved), not armed.", runC11)
 }
 
 // reasoned tables --------------------------------------------------------------
